@@ -110,6 +110,7 @@ func runOps(r *env.Rec, cs grpc.ClientStream, ops string, isCancelled func() boo
 				r.CRecv = append(r.CRecv, o.msg)
 			} else {
 				r.CErr = o.err
+				_ = cs.Trailer() // permitted once RecvMsg has returned an error
 			}
 		}
 		*log = append(*log, o)
